@@ -53,7 +53,8 @@ def run_property(prop: str, tier: str, write_evidence=True, only=None, root=None
     if tier == "thorough" and not ctx.errors:
         from . import selftest
 
-        extra = selftest.run_for(prop, ctx)
+        os.environ["NQSA_SELFTEST"] = "1"  # (the replayed variants use the shortest long runs that still exceed the register file)
+        extra = selftest.run_for(prop, ctx, own_only=True)
     try:
         return report.finish(ctx, t0, ctx.technique or "static analysis", ctx.assumptions, ctx.explanation or "analysis did not start (see analysis_errors)",
                              write_evidence=write_evidence, extra=extra), ctx
